@@ -222,6 +222,10 @@ pub(super) fn complex_borrow_check(
                     // some of those nodes.
                     if unblocked_any_node {
                         strategy_on_block = StrategyOnBlock::Park;
+                        // The next cloning round must make progress of its own:
+                        // a stale `true` would make `Park` and `Clone` alternate forever
+                        // when the nodes that are still parked can't be unblocked by cloning.
+                        unblocked_any_node = false;
                     } else {
                         strategy_on_block = StrategyOnBlock::Error;
                     }
